@@ -155,7 +155,17 @@ def build_queries(db, tier: str, extra: tuple = ()) -> dict:
         values.append([uniq[0], "latest"])  # an obsolete family name must resolve to its successor
     data_root = db.root
     schemas = [f for f in ("mbi", "tz", "xmcd") if os.path.isfile(os.path.join(data_root, "jsonschemas", "sch_%s.yaml" % f))]
+    # register / preset files that the tools load through the configuration-file cache (db_data_*.cache)
+    data_files = []
+    for n in names:
+        f = db.devices[n].features()
+        if "tz" in f and f["tz"].get("reg_spec") and len([x for x in data_files if x[1] == "tz"]) < 2 and db.resolve_file(n, f["tz"]["reg_spec"]):
+            data_files.append([n, "tz", ["reg_spec"]])
+        if "pfr" in f and ((f["pfr"].get("cmpa") or {}).get("reg_spec")) and len([x for x in data_files if x[1] == "pfr"]) < 1 \
+                and db.resolve_file(n, f["pfr"]["cmpa"]["reg_spec"]):
+            data_files.append([n, "pfr", ["cmpa", "reg_spec"]])
     return {
+        "data_files": data_files,
         "families": sorted(feats) + ["c18_no_such_feature"],
         "families_sub": sorted([f, s] for f, s in subs) + [["mbi", "c18_no_such_sub"]],
         "purpose": names,
@@ -198,6 +208,13 @@ def truth_answers(db, q: dict, entry: str) -> dict:
     A["values"] = vals
     A["revisions"] = {d: [db.devices[d].latest, sorted(db.devices[d].revisions)] for d in q["revisions"]}
     A["schemas"] = {f: digest(_load_cfg_file(os.path.join(db.root, "jsonschemas", "sch_%s.yaml" % f))) for f in q["schemas"]}
+    dfa = {}
+    for dev, feat, key in q.get("data_files", []):
+        rec = db.devices[dev].features()[feat]
+        for k in key:
+            rec = rec[k]
+        dfa["%s/%s/%s" % (dev, feat, ".".join(key))] = digest(_load_cfg_file(db.resolve_file(dev, rec)))
+    A["data_files"] = dfa
     return A
 
 
@@ -460,7 +477,7 @@ def check_after_state(o: Oracle, cache: str, db) -> None:
 
 
 def run_group(o: Oracle, case_dir: str, cache: str, n: int, entries: list, db=None, queries=None, data_folder=None,
-              disabled: bool = False, followup: bool = False, scheduler=None, shim=None, kills=None) -> list:
+              disabled: bool = False, followup: bool = False, scheduler=None, shim=None, kills=None, work=None) -> list:
     """n simultaneous first uses on `cache`; every child is judged; then after-state (+ optional follow-up start)."""
     db = db or _S["db"]
     queries = queries or _S["queries"]
@@ -469,6 +486,8 @@ def run_group(o: Oracle, case_dir: str, cache: str, n: int, entries: list, db=No
         c = {"queries": queries, "entry": entries[i % len(entries)]}
         if shim:
             c["shim"] = {"dir": shim, "kill": (kills or {}).get(i)}
+        if work:
+            c["work"] = work
         cfgs.append(c)
     results = start_children(case_dir, cache, cfgs, data_folder, disabled, scheduler)
     sub = ("cache_disabled_equivalent", "cache_disabled_equivalent") if disabled else ("starts_normally", "answers_match_truth")
@@ -619,6 +638,7 @@ PLAIN_STATES = {
 STALE_STATES = ["stale_device_touched", "stale_device_feature_removed", "stale_defaults_edited", "stale_schema_edited",
                 "stale_device_added", "stale_device_removed", "stale_device_same_size", "stale_device_same_mtime",
                 "stale_schema_same_size", "stale_schema_same_mtime", "stale_cached_file_removed"]
+WORK_STATES = {"work_edits_loaded_data_cold": {}, "work_edits_loaded_data_warm": {"q": "valid", "d": "valid"}}
 DISABLED_STATES = {"disabled_cold": {"nodir": True}, "disabled_warm": {"q": "valid", "d": "valid"},
                    "disabled_damaged": {"q": ["prefix", 0], "d": ["prefix", 0]}}
 
@@ -636,6 +656,8 @@ def _state_items(tier: str) -> list:
     for s in DISABLED_STATES:
         items.append({"state": s, "entry": "api"})
     items.append({"state": "disabled_cold", "entry": "cli"})
+    for s in WORK_STATES:
+        items.append({"state": s, "entry": "api"})
     return items
 
 
@@ -750,6 +772,16 @@ def run_state(case, o: Oracle) -> None:
         prepare_cache(cache, PLAIN_STATES[state])
         run_group(o, case_dir, cache, 1, [entry], followup=True)
         o.nontrivial(state not in ("warm",))
+    elif state in WORK_STATES:
+        # a process that works with the loaded data (changes the dictionaries it was handed, as TrustZone's customisation merge does)
+        # and makes the cache be written afterwards; it and the next process must still see what the files say
+        o.label("work")
+        prepare_cache(cache, WORK_STATES[state])
+        df = _S["queries"].get("data_files") or []
+        if len(df) < 2:
+            raise HarnessError("fewer than two data files to work with")
+        run_group(o, case_dir, cache, 1, [entry], followup=True, work={"edit": df[:-1], "then_load": df[-1:]})
+        o.nontrivial(True)
     elif state in DISABLED_STATES:
         o.label("disabled")
         prepare_cache(cache, DISABLED_STATES[state])
